@@ -1,3 +1,2 @@
 package main
 
-func c16(seed uint64, n int, args []string)   {}
